@@ -261,13 +261,26 @@ Definition fresh_ok (seen : list N) (o : obs) : bool :=
   let gen := map snd (o_newids o) in
   forallb (fun x => c04_first_user_id <=? x) gen && nodupb gen && forallb (fun x => negb (memb x seen)) gen.
 
+(* a new (not synced) event cannot bring storage IDs of the client's choosing into the log: every ID stored for
+   an argument row or a create is one the generator just handed out (so, by fresh_ok, a user ID that the
+   workspace never stored before) or the registry ID of the row's singleton type.  Judged on what was stored,
+   whether or not validation should have accepted the event. *)
+Fixpoint issued_ok (gen : list N) (ins sts : list row) : bool :=
+  match ins, sts with
+  | i :: ins', s :: sts' =>
+      (memb (r_id s) gen || (negb (r_single i =? 0) && (r_id s =? r_single i))) && issued_ok gen ins' sts'
+  | _, _ => true
+  end.
+Definition new_event_ok (ev : event) (o : obs) : bool :=
+  e_sync ev || issued_ok (map snd (o_newids o)) (e_arg ev ++ e_creates ev) (o_arg o ++ o_creates o).
+
 Fixpoint satisfies_from (seen : N -> list N) (t : trace) : bool :=
   match t with
   | [] => true
   | ORestart :: rest => satisfies_from seen rest
   | OEvent ws ev o :: rest =>
       if o_ok o then
-        subst_ok ev o && fresh_ok (seen ws) o
+        subst_ok ev o && new_event_ok ev o && fresh_ok (seen ws) o
         && satisfies_from (fun k => if k =? ws then seen ws ++ ids (o_creates o) ++ ids (o_arg o) else seen k) rest
       else satisfies_from seen rest
   end.
